@@ -532,6 +532,29 @@ func runC09R9(c *Ctx, rule string) {
 				if al, ok := base.(*ssa.Alloc); ok && al.Heap && !reachesShared(al) {
 					continue
 				}
+				if pa, ok := base.(*ssa.Parameter); ok {
+					// a helper that edits the options it is handed: fine when every caller hands it a private copy
+					private, idx := true, -1
+					for i, q := range fn.Params {
+						if q == pa {
+							idx = i
+						}
+					}
+					callers := c.callersOf(fn)
+					for _, cs := range callers {
+						if idx < 0 || idx >= len(cs.Common().Args) {
+							private = false
+							continue
+						}
+						al, ok := cs.Common().Args[idx].(*ssa.Alloc)
+						if !ok || (al.Heap && reachesShared(al)) {
+							private = false
+						}
+					}
+					if private && len(callers) > 0 {
+						continue
+					}
+				}
 				bad++
 				c.R.Bad(rule, "shared-cookie-options-store|"+fnKey(fn), c.pos(in), "request-handling code writes "+what+" of an options.Cookie reached through a pointer: the struct is shared by the proxy, the session stores and the CSRF helpers, so the configured cookie lifetime / refresh period / secret changes for every later request", nil, nil)
 			}
